@@ -88,8 +88,10 @@ func ruleTLWPaths(r *Run, p *Prog) {
 		}
 		// conditions in path order: loads of `triggered` are distinct values; take them in order
 		var trigReads []bool // value of each read of w.triggered along the path
+		var lastTrigRead ssa.Instruction
 		geTrig, ltTrig, leCond, gtCond := false, false, false, false
 		trigErr := false
+		infeasible := false
 		for _, e := range pa.Edges {
 			c, ok := cmpOf(e)
 			if !ok {
@@ -97,7 +99,17 @@ func ruleTLWPaths(r *Run, p *Prog) {
 			}
 			if isTrig(c.X) {
 				if b, ok := constBool(c.Y); ok {
-					trigReads = append(trigReads, (c.Op == token.EQL) == b)
+					val := (c.Op == token.EQL) == b
+					// two reads of w.triggered with nothing in between that can change it must agree
+					if len(trigReads) > 0 && trigReads[len(trigReads)-1] != val {
+						prev := lastTrigRead
+						cur, _ := c.X.(ssa.Instruction)
+						if prev != nil && cur != nil && !mayChangeBetween(pa, prev, cur, trig) {
+							infeasible = true
+						}
+					}
+					lastTrigRead, _ = c.X.(ssa.Instruction)
+					trigReads = append(trigReads, val)
 				}
 			}
 			if c.X == ssa.Value(lv) && isTL(c.Y) {
@@ -111,6 +123,9 @@ func ruleTLWPaths(r *Run, p *Prog) {
 			if call, ok := c.X.(*ssa.Call); ok && staticCallee(&call.Call) == trig && c.Op == token.NEQ && isNilConst(c.Y) {
 				trigErr = true
 			}
+		}
+		if infeasible {
+			continue
 		}
 		seq := strings.Join(events, "→")
 		cons := fmt.Sprintf("%s/path#%d", FnName(f), i)
@@ -145,8 +160,8 @@ func ruleTLWPaths(r *Run, p *Prog) {
 				if c, isC := n.(*ssa.Call); isC && builtinName(&c.Call) == "len" && c.Call.Args[0] == ssa.Value(pp) {
 					lenP = true
 				}
-				ok = lastUntriggered && leCond && lenP && isNilConst(e)
-				d = tern(ok, "held back: level byte then the line, reports len(p), nil", "a line is held back without !triggered && l <= ConditionalLevel, or does not report (len(p), nil)")
+				ok = lastUntriggered && leCond && lenP && isNilConst(e) && (ltTrig || calledTrig)
+				d = tern(ok, "held back: level byte then the line, reports len(p), nil", "a line is held back without !triggered && l <= ConditionalLevel (and l < TriggerLevel: a line at or above TriggerLevel must fire the trigger, not be held), or does not report (len(p), nil)")
 				classes["hold"]++
 			} else if strings.Join(rest, "→") == "dest" {
 				ok = !(lastUntriggered && leCond)
@@ -299,4 +314,36 @@ func ruleTLWFrame(r *Run, p *Prog) {
 			}
 		}
 	}
+}
+
+// mayChangeBetween: between two instructions on the path, is there a store to a field or a call
+// to a module function (which could store)?
+func mayChangeBetween(pa Path, a, b ssa.Instruction, trig *ssa.Function) bool {
+	on := false
+	for _, in := range pa.Instrs() {
+		if in == a {
+			on = true
+			continue
+		}
+		if in == b {
+			return false
+		}
+		if !on {
+			continue
+		}
+		switch x := in.(type) {
+		case *ssa.Store:
+			if _, ok := x.Addr.(*ssa.FieldAddr); ok {
+				return true
+			}
+		case *ssa.Call:
+			if sc := staticCallee(&x.Call); sc != nil && InModule(sc) {
+				return true
+			}
+			if x.Call.IsInvoke() {
+				return true
+			}
+		}
+	}
+	return false
 }
